@@ -609,3 +609,117 @@ def check_unsafe_calls(ctx, rep):
                 if st["k"] == "intrinsic":
                     rep.bad("R-FFI-N5", "R-FFI-N5:%s:intrinsic" % b.short, b.where(bi, st.get("line")), "raw memory intrinsic in the C API: %s" % st.get("dbg", "")[:60])
     return n
+
+
+# ---------------------------------------------------------------------- C17: failure paths and flags
+SWALLOWERS = re.compile(r"(_or_default$|::unwrap_or_default$)")
+
+
+def check_failure_paths(ctx, rep):
+    """'Every failure (wrong kind, bad index, invalid text, unknown unit or zone) is reported':
+    (a) no C API function calls a crate helper that swallows the failure (get_unit_or_default & co);
+    (b) every fallible crate lookup it calls (get_unit, make_date_time_with_tz, from_str, Filter::try_from, from_ymd, ...)
+        has its None / Err edge lead to new_error on all paths;
+    (c) an `index` argument is compared with the container's length strictly (index < len), as every sibling does."""
+    prog = ctx.prog
+    from rules import entries
+
+    n = 0
+    for f in entries.extern_c(prog):
+        body = prog.bodies[f]
+        name = body.rec["name"]
+        eb = err_blocks(body)
+        k = 0
+        for bi, t in body.calls():
+            c = callee_of(t)
+            if c is None:
+                continue
+            nm = strip_generics(c.get("res") or c["fn"])
+            if SWALLOWERS.search(nm) and (nm.startswith("haystack::") or "Option::unwrap_or_default" in nm or "Result::unwrap_or_default" in nm):
+                n += 1
+                rep.bad("R-ERR", "R-ERR:%s:swallows:%s" % (name, nm.split("::")[-1]), body.where(bi), "%s calls %s, which replaces a failed lookup by a default: the failure is not reported to the C caller" % (name, nm))
+                continue
+            dt = t.get("dest_ty", "")
+            crate_fallible = (dt.startswith("std::result::Result") or dt.startswith("std::option::Option<&haystack::units")) and (nm.startswith("haystack::") or nm.startswith("<haystack::") or nm.startswith("serde_json::from_") or nm.endswith("CStr::to_str"))
+            if not crate_fallible or t["dest"]["p"]:
+                continue
+            # find the switch on this result's discriminant
+            dl = t["dest"]["l"]
+            fail_edge = None
+            for sb in body.rpo():
+                st = body.term(sb)
+                if st["k"] != "switch":
+                    continue
+                pl = op_place(st["op"])
+                sd = body.single_def(pl["l"]) if pl is not None and not pl["p"] else None
+                if sd and sd[1] != "term" and sd[2]["k"] == "discr" and not sd[2]["place"]["p"] and sd[2]["place"]["l"] == dl:
+                    vals = {int(x[0]): x[1] for x in st["targets"]}
+                    if dt.startswith("std::result::Result"):
+                        fail_edge = vals.get(1, st["otherwise"] if 0 in vals else None)
+                    else:
+                        fail_edge = vals.get(0, st["otherwise"] if 1 in vals else None)
+                    break
+            if fail_edge is None:
+                continue
+            n += 1
+            key = "%s:failure-of:%s#%d" % (name, nm.split("::")[-1], k)
+            k += 1
+            ok, path = all_paths_hit(body, fail_edge, eb)
+            if ok:
+                rep.ok("R-ERR", key, body.where(bi), "the failure edge of %s reaches new_error / update_last_error on every path" % nm.split("::")[-1])
+            else:
+                rep.bad("R-ERR", "R-ERR:%s:failure-of:%s" % (name, nm.split("::")[-1]), body.where(bi), "%s can fail in %s without an error being recorded (path %s)" % (nm.split("::")[-1], name, path))
+        # (c) strict index guards
+        idx_params = [i + 1 for i, ty in enumerate(body.rec.get("sig_inputs", [])) if ty == "usize"]
+        pnames = {l: nmn for l, nmn in body.names.items()}
+        for bi2 in range(body.n):
+            st = body.term(bi2)
+            if st["k"] != "switch":
+                continue
+            v = G.describe(body, st["op"])
+            if v.kind == "binop" and v.v in ("Lt", "Le", "Gt", "Ge") and len(v.args) == 2:
+                a, c2 = v.args
+                ra, rc = repr(a), repr(c2)
+                for p in idx_params:
+                    if pnames.get(p) != "index":
+                        continue
+                    lenside = c2 if ra == "_%d" % p else (a if rc == "_%d" % p else None)
+                    if lenside is None or not (lenside.kind == "call" and lenside.v.endswith("::len")):
+                        continue
+                    n += 1
+                    strict = (v.v == "Lt" and ra == "_%d" % p) or (v.v == "Gt" and rc == "_%d" % p)
+                    key = "%s:index-guard-strict" % name
+                    if strict:
+                        rep.ok("R-ERR", key, body.where(bi2), "index < len(): an index equal to the length is rejected like any other bad index")
+                    else:
+                        rep.bad("R-ERR", "R-ERR:" + key, body.where(bi2), "%s accepts index == len() (%s): a bad index is not reported and the container changes" % (name, v.v))
+    return n
+
+
+def check_named_flags(ctx, rep):
+    """a boolean argument called `utc` selects the UTC accessor on its true edge and the local one on its false edge"""
+    prog = ctx.prog
+    from rules import entries
+
+    n = 0
+    for f in entries.extern_c(prog):
+        body = prog.bodies[f]
+        flags = [l for l, nm in body.names.items() if nm == "utc" and l <= body.arg_count and body.local_ty(l) == "bool"]
+        for fl in flags:
+            for bi, t in body.calls():
+                nm = strip_generics(mir.callee_name(t) or "")
+                kind = "utc" if nm.endswith("::naive_utc") else ("local" if nm.endswith("::naive_local") else None)
+                if kind is None:
+                    continue
+                n += 1
+                pol = None
+                for g in G.guards_at(body, bi):
+                    if g.a is not None and repr(g.a) == "_%d" % fl and g.op in ("True", "False"):
+                        pol = g.op
+                key = "%s:flag-utc:%s" % (body.rec["name"], kind)
+                good = (kind == "utc" and pol == "True") or (kind == "local" and pol == "False")
+                if good:
+                    rep.ok("R-FLAG", key, body.where(bi), "naive_%s() on the utc == %s edge" % (kind, pol.lower()))
+                else:
+                    rep.bad("R-FLAG", "R-FLAG:" + key, body.where(bi), "%s reads the %s fields on the `utc == %s` edge: the flag selects the opposite clock" % (body.rec["name"], kind, (pol or "?").lower()))
+    return n
